@@ -91,11 +91,16 @@ pub fn exec(op: &str, a: &[&str]) -> Option<String> {
             Some(format!("ok:{}:{}:{}", repr_b(&v), bit(v.len() == m.size()), bit(rb)))
         }
         // c20.fl_read <payload hex>: decode, validate, use
-        "c20.fl_read" => {
+        "c20.fl_read" | "c20.fl_readf" => {
             let b = unhexd(a[0]);
             if declared_len(&b) > 1 << 27 { return Some("refused:declared-length".into()); }
             let mut c = Cursor::new(&b);
-            Some(match FilterLoad::read(&mut c) {
+            // c20.fl_readf <payload> <k>: the same through a reader that hands out at most k bytes per call
+            let k: usize = if op == "c20.fl_readf" { a[1].parse().unwrap_or(1).max(1) } else { 0 };
+            let mut fr = crate::util::FragReader { data: &b, pos: 0, k, calls: 0 };
+            let r = if k > 0 { FilterLoad::read(&mut fr) } else { FilterLoad::read(&mut c) };
+            if k > 0 { c.set_position(fr.pos as u64); }
+            Some(match r {
                 Err(e) => err_class(&e),
                 Ok(m) => {
                     let mut f = m.bloom_filter.clone();
@@ -168,6 +173,7 @@ pub fn gen(tier: &str, rng: &mut Rng, out: &mut Vec<String>) {
     out.push("c20.fl_rt ce4299 5 2147483649 1".into());
     out.push("c20.fl_read 03614e9b050000000000000001".into());
     out.push("c20.fl_read 03ce4299050000000100008001".into());
+    for k in [1usize, 2, 3, 5] { out.push(format!("c20.fl_readf 03614e9b050000000000000001 {}", k)); out.push(format!("c20.fl_readf 03ce4299050000000100008001 {}", k)); }
     // (b) dense small sizes x function counts, empty filter included
     for len in 0usize..=16 {
         for n in [0usize, 1, 2, 3, 5, 11, 50] {
@@ -248,6 +254,7 @@ pub fn gen(tier: &str, rng: &mut Rng, out: &mut Vec<String>) {
         let n = match rng.below(6) { 0 => 0, 1 => 1, 2 => 50, 3 => 51, 4 => rng.next() as u32, _ => rng.range(0, 50) as u32 };
         let p = payload(&f, n, tweak(rng), rng.byte());
         out.push(format!("c20.fl_read {}", hexd(&p)));
+        for k in [1usize, 2, 4, 7] { out.push(format!("c20.fl_readf {} {}", hexd(&p), k)); }
         if rng.chance(1, 3) { for cut in 0..p.len() { out.push(format!("c20.fl_read {}", hexd(&p[..cut]))); } }
         let mut q = p.clone(); q.extend_from_slice(&{ let n_ = rng.range(1, 5) as usize; rng.bytes(n_) });
         out.push(format!("c20.fl_read {}", hexd(&q)));
